@@ -204,18 +204,23 @@ def scenario(run, tape, clock, stores):
         interleave = tape.draw(4) == 3 and not skip_lookup
         other_cat = tape.choice(S.CATEGORIES)
         other_filt = gen_filter(tape, run, universe) if interleave else None
+        save_meanwhile = None
         if interleave:
             run.probe('interleaved_lookups')
+            if tape.draw(3) == 2 and other_cat != cat:
+                # ... and the service saves a new recording (of another category) while the lookup is still being consumed
+                save_meanwhile = (len(cats), S.gen_metadata(tape))
+                run.probe('save_while_lookup_in_flight')
         eff = copy.deepcopy(filt)
         if skip_lookup:
             run.probe('skip_incomplete_lookup')
             eff = dict(eff or {})
             eff[INC] = [False, None]
         definite, dontcare = model.lookup(cat, eff)
-        siblings = [i for i in range(n) if cats[i] != cat and (cats[i].startswith(cat) or cat.startswith(cats[i]))]
+        siblings = [i for i in range(len(cats)) if cats[i] != cat and (cats[i].startswith(cat) or cat.startswith(cats[i]))]
         if siblings:
             run.probe('category_prefix_sibling')
-        same_cat = [i for i in range(n) if cats[i] == cat]
+        same_cat = [i for i in range(len(cats)) if cats[i] == cat]
         if definite and (len(definite) < len(same_cat) or siblings):
             run.nontrivial = True
         if limit is not None and limit < len(definite):
@@ -238,6 +243,13 @@ def scenario(run, tape, clock, stores):
                     if first is not None:
                         got.append(first)
                     list(cas.iter_recording_ids(other_cat, metadata=copy.deepcopy(other_filt)))
+                    if save_meanwhile is not None:
+                        r_new = cas.create_new_recording(other_cat)
+                        r_new.set_data('k', save_meanwhile[0])
+                        r_new.add_metadata(copy.deepcopy(save_meanwhile[1]))
+                        cas.save_recording(r_new)
+                        ids[name][save_meanwhile[0]] = r_new.id
+                        back[r_new.id] = save_meanwhile[0]
                     got.extend(it)
                 else:
                     got = list(cas.iter_recording_ids(cat, metadata=copy.deepcopy(filt), limit=limit, random_results=rnd))
@@ -282,6 +294,10 @@ def scenario(run, tape, clock, stores):
                         raise ValueError('None')
                 except Exception as ex:
                     run.violate('returned_ids_fetch', 'unfetchable:%s' % name, '%s on %s returned id %s that does not fetch: %r' % (desc, name, g, ex))
+        if save_meanwhile is not None:
+            cats.append(other_cat)
+            universe.append(save_meanwhile[1])
+            model.save(save_meanwhile[0], other_cat, save_meanwhile[1], {})
         if limit is None and not dontcare and len(results) == 3 and not (results['memory'] == results['file'] == results['s3']):
             run.violate('same_on_all_cassettes', 'cassettes-disagree', '%s: memory %s file %s s3 %s' % (desc, sorted(results['memory']), sorted(results['file']), sorted(results['s3'])))
         run.ev('lookup', q, cat, V.srepr(filt), limit, rnd, skip_lookup, sorted(definite), sorted(dontcare), sorted((k, sorted(v)) for k, v in results.items()))
